@@ -48,20 +48,61 @@ def build_all(repo, tag, configs):
     return out
 
 
-def run_digests(sim, fam, seed, tier, a, b):
-    p = subprocess.run([sim, "digests", fam, "--seed", str(seed), "--tier", tier, "--from", str(a), "--to", str(b), "--clean"],
-                       stdout=subprocess.PIPE, stderr=subprocess.DEVNULL, text=True)
+def run_digests(sim, fam, seed, tier, a, b, stall=15.0):
+    """Runs [a, b); a run that makes no progress for `stall` seconds is killed,
+    recorded as ('HANG', ...) and the range continues after it."""
+    import threading, queue
     res = {}
-    for l in p.stdout.splitlines():
-        if l.startswith("D "):
-            _, i, d, o, ops = l.split()
-            res[int(i)] = (d, o, int(ops))
-    return res, p.returncode
+    rc = 0
+    cur = a
+    hangs = 0
+    while cur < b:
+        p = subprocess.Popen([sim, "digests", fam, "--seed", str(seed), "--tier", tier, "--from", str(cur), "--to", str(b), "--clean"],
+                             stdout=subprocess.PIPE, stderr=subprocess.DEVNULL, text=True)
+        q = queue.Queue()
+
+        def pump(pp=p, qq=q):
+            for l in pp.stdout:
+                qq.put(l)
+            qq.put(None)
+        threading.Thread(target=pump, daemon=True).start()
+        last = cur - 1
+        done = False
+        while True:
+            try:
+                l = q.get(timeout=stall)
+            except queue.Empty:
+                p.kill()
+                p.wait()
+                break
+            if l is None:
+                done = True
+                break
+            if l.startswith("D "):
+                _, i, d, o, ops = l.split()
+                res[int(i)] = (d, o, int(ops))
+                last = int(i)
+        if done:
+            p.wait()
+            if last + 1 < b:
+                # the process died on run last+1
+                res[last + 1] = ("ABORT", "process-died", 0)
+                cur = last + 2
+                hangs += 1
+            else:
+                cur = b
+        else:
+            res[last + 1] = ("HANG", "does-not-terminate", 0)
+            cur = last + 2
+            hangs += 1
+        if hangs > 4:
+            break
+    return res, rc
 
 
 def digest_of(sim, fam, scenarios):
     inp = "\n".join(json.dumps(s) for s in scenarios) + "\n"
-    p = subprocess.run([sim, "digest-of", fam, "--clean"], input=inp, stdout=subprocess.PIPE, stderr=subprocess.DEVNULL, text=True, timeout=120)
+    p = subprocess.run([sim, "digest-of", fam, "--clean"], input=inp, stdout=subprocess.PIPE, stderr=subprocess.DEVNULL, text=True, timeout=30)
     res = {}
     for l in p.stdout.splitlines():
         if l.startswith("D "):
@@ -224,16 +265,21 @@ def main(repo, tag, rest, replay):
         scn = gen_scenario(builds[ref][0], fam, seed, tier, i)
         mini = scn
         try:
-            if ra is not None and rb is not None:
+            if ra is not None and rb is not None and ra[0] not in ("HANG", "ABORT") and rb[0] not in ("HANG", "ABORT"):
                 mini = minimise(builds[ref][0], builds[c][0], fam, scn)
         except Exception as e:  # keep the unminimised scenario
             print("[C19] minimiser failed:", e)
-        da = digest_of(builds[ref][0], fam, [mini]).get(0)
-        db = digest_of(builds[c][0], fam, [mini]).get(0)
+        def safe_digest(sim_path, scenario):
+            try:
+                return digest_of(sim_path, fam, [scenario]).get(0)
+            except subprocess.TimeoutExpired:
+                return ("HANG", "does-not-terminate")
+        da = safe_digest(builds[ref][0], mini)
+        db = safe_digest(builds[c][0], mini)
         if da == db:
             mini = scn
-            da = digest_of(builds[ref][0], fam, [mini]).get(0)
-            db = digest_of(builds[c][0], fam, [mini]).get(0)
+            da = safe_digest(builds[ref][0], mini)
+            db = safe_digest(builds[c][0], mini)
         if da == db and da is not None:
             print("HARNESS-ERROR C19 mismatch for %s run %d did not reproduce" % (fam, i))
             return 2
@@ -312,8 +358,13 @@ def do_replay(repo, tag, path):
     ca = (tuple(rf["build_a"]["features"]), rf["build_a"]["profile"])
     cb = (tuple(rf["build_b"]["features"]), rf["build_b"]["profile"])
     b = build_all(repo, tag, [ca, cb])
-    da = digest_of(b[ca][0], rf["family"], [rf["scenario"]]).get(0)
-    db = digest_of(b[cb][0], rf["family"], [rf["scenario"]]).get(0)
+    def safe(sim_path):
+        try:
+            return digest_of(sim_path, rf["family"], [rf["scenario"]]).get(0)
+        except subprocess.TimeoutExpired:
+            return ("HANG", "does-not-terminate")
+    da = safe(b[ca][0])
+    db = safe(b[cb][0])
     print("replay: build %s -> %s ; build %s -> %s" % (cfg_name(ca), da, cfg_name(cb), db))
     if da != db or da is None:
         print("VIOLATION property=C19 replay=%s" % path)
